@@ -606,16 +606,49 @@ def symdict_len(d):
     return d.sym['len']
 
 
-def new_symdict(ex, st, name, vty):
-    """dict[int, T] of unknown content: present: Int->Bool, val: Int -> T, len (number of keys)"""
-    pres = z3.Function(uid(name + '.has'), z3.IntSort(), z3.BoolSort())
-    cache = {}
-    n = z3.Int(uid(name + '.len'))
-    st.assume(n >= 0)
+def keyterm(k):
+    """z3 term of a dict key (ints and strings are supported as symbolic keys)"""
+    if isinstance(k, VStr):
+        return k.t
+    if isinstance(k, (VInt, VBool)):
+        return to_int(k)
+    if isinstance(k, VOpt):
+        return keyterm(k.val)
+    raise Unsupported('symbolic dict key %r' % (k,))
+
+
+def new_symdict(ex, st, name, vty, ksort=None, idx=(), fcache=None):
+    """dict[K, T] of unknown content: present: K->Bool, val: K -> T, len (number of keys); K int or str.
+    `fcache`: when given, the underlying uninterpreted functions are created once per (name) and reused, so that two
+    evaluations of the same typed field denote the same dict."""
+    ksort = ksort if ksort is not None else z3.IntSort()
+    fcache = fcache if fcache is not None else {}
+    key = (name, 'dict')
+    if key not in fcache:
+        presf = z3.Function(uid(name + '.has'), *([x.sort() for x in idx] + [ksort, z3.BoolSort()]))
+        lenf = z3.Function(uid(name + '.len'), *([x.sort() for x in idx] + [z3.IntSort()])) if idx else z3.Int(uid(name + '.len'))
+        fcache[key] = (presf, lenf, {})
+    presf, lenf, cache = fcache[key]
+    pres = lambda k: presf(*(tuple(idx) + (k,)))      # noqa
+    n = lenf(*idx) if idx else lenf
+    if not idx:
+        st.assume(n >= 0)
 
     def val(k):
-        return ex._fresh_fn(st, vty, name + '.val', (k,), cache)
+        return ex._fresh_fn(st, vty, name + '.val', tuple(idx) + (k,), cache)
     return VDict(sym={'has': lambda k: pres(k), 'val': val, 'len': n})
+
+
+def concrete_to_symdict(ex, st, d, k):
+    """a dict literal that receives a symbolic key becomes a symbolic map with the same content"""
+    kt = keyterm(k)
+    has = lambda j: z3.BoolVal(False)      # noqa
+    val = None
+    n = 0
+    out = VDict(sym={'has': has, 'val': (lambda j: NONE), 'len': z3.IntVal(0)})
+    for ck, v in d.items.items():
+        out = dict_set(ex, st, out, key_value(ck), v)
+    return out
 
 
 def dict_has(ex, st, d, k):
@@ -626,7 +659,7 @@ def dict_has(ex, st, d, k):
         if not d.items:
             return z3.BoolVal(False)
         return z3.Or([eq(k, key_value(x)) for x in d.items])
-    return d.sym['has'](to_int(k))
+    return d.sym['has'](keyterm(k))
 
 
 def dict_get(ex, st, d, k, node=None):
@@ -649,7 +682,7 @@ def dict_get(ex, st, d, k, node=None):
         if ex.feasible(rest):
             res.append((rest, Raised('KeyError', note='symbolic key')))
         return res
-    kk = to_int(k)
+    kk = keyterm(k)
     if st.spec:
         return [(st, d.sym['val'](kk))]
     res = []
@@ -662,11 +695,12 @@ def dict_set(ex, st, d, k, v):
     if d.items is not None:
         ck = concrete_key(k)
         if ck is None:
-            raise Unsupported('dict store with symbolic key into concrete dict')
+            d = concrete_to_symdict(ex, st, d, k)
+            return dict_set(ex, st, d, k, v)
         items = dict(d.items)
         items[ck] = v
         return VDict(items)
-    kk = to_int(k)
+    kk = keyterm(k)
     has, val, n = d.sym['has'], d.sym['val'], d.sym['len']
     return VDict(sym={'has': lambda j: z3.Or(j == kk, has(j)),
                       'val': lambda j: ite(j == kk, v, val(j)),
@@ -683,7 +717,7 @@ def dict_del(ex, st, d, k):
         items = dict(d.items)
         del items[ck]
         return [(st, VDict(items))]
-    kk = to_int(k)
+    kk = keyterm(k)
     has, val, n = d.sym['has'], d.sym['val'], d.sym['len']
     res = []
     for s2, b in ex.branch(st, has(kk)):
@@ -1132,6 +1166,26 @@ def m_sqrt(ex, st, args, kwargs, node):
 
 BUILTINS['floor'] = m_floor      # spec dialect
 BUILTINS['ceil'] = m_ceil
+md5hex = z3.Function('md5hex', z3.StringSort(), z3.StringSort())
+
+
+@extern('hashlib.new')
+def h_new(ex, st, args, kwargs, node):
+    obj = ex.new_ref(st, '$hash')
+    st.heap[obj.ref]['algo'] = args[0]
+    st.heap[obj.ref]['data'] = args[1] if len(args) > 1 else VStr('', isbytes=True)
+    ex.used_stubs.add('hashlib digests: uninterpreted function of the input bytes')
+    return [(st, obj)]
+
+
+@extern('hashlib.md5')
+def h_md5(ex, st, args, kwargs, node):
+    return h_new(ex, st, [VStr('md5')] + list(args), kwargs, node)
+
+
+STUB_CLASSES['$hash'] = {
+    'hexdigest': lambda ex, st, v, args, kwargs, node: [(st, VStr(md5hex(z3.Concat(st.heap[v.ref]['algo'].t, z3.StringVal(':'), st.heap[v.ref]['data'].t))))],
+}
 EXTERNS['errno.ENOENT'] = VInt(2)
 EXTERNS['errno.EEXIST'] = VInt(17)
 EXTERNS['errno.EACCES'] = VInt(13)
@@ -1249,7 +1303,7 @@ def dict_m_get(ex, st, selfv, args, kwargs, node):
         if ex.feasible(rest):
             res.append((rest, default))
         return res
-    kk = to_int(k)
+    kk = keyterm(k)
     res = []
     for s2, b in ex.branch(st, selfv.sym['has'](kk)):
         res.append((s2, selfv.sym['val'](kk) if b else default))
@@ -1270,7 +1324,7 @@ def dict_m_pop(ex, st, selfv, args, kwargs, node):
         if len(args) > 1:
             return [(st, args[1])]
         return [(st, Raised('KeyError', note=str(ck)))]
-    kk = to_int(k)
+    kk = keyterm(k)
     has, val, n = selfv.sym['has'], selfv.sym['val'], selfv.sym['len']
     res = []
     for s2, b in ex.branch(st, has(kk)):
@@ -1352,6 +1406,36 @@ def str_m_upper(ex, st, selfv, args, kwargs, node):
 def b_str_lower(ex, st, args, kwargs, node):
     from . import strings
     return [(st, strings.lower_of(args[0]))]
+
+
+@method('str', 'join')
+def str_m_join(ex, st, selfv, args, kwargs, node):
+    outs = as_seq(ex, st, args[0])
+    res = []
+    for s2, sq in outs:
+        if isinstance(sq, Raised):
+            res.append((s2, sq))
+            continue
+        if not sq.concrete:
+            raise Unsupported('str.join over a sequence of symbolic length')
+        t = None
+        for k, x in enumerate(sq.items):
+            if not isinstance(x, VStr):
+                raise Unsupported('str.join of non-strings')
+            t = x.t if t is None else z3.Concat(t, selfv.t, x.t) if not (z3.is_string_value(selfv.t) and selfv.t.as_string() == '') else z3.Concat(t, x.t)
+        res.append((s2, VStr(t if t is not None else z3.StringVal(''), isbytes=selfv.isbytes)))
+    return res
+
+
+@method('str', 'encode')
+def str_m_encode(ex, st, selfv, args, kwargs, node):
+    ex.used_stubs.add('str.encode()/bytes.decode(): identity on the abstract character sequence (no UnicodeError modelled)')
+    return [(st, VStr(selfv.t, isbytes=True))]
+
+
+@method('str', 'decode')
+def str_m_decode(ex, st, selfv, args, kwargs, node):
+    return [(st, VStr(selfv.t, isbytes=False))]
 
 
 @method('str', 'startswith')
@@ -1466,6 +1550,14 @@ def _gridlist_fresh(ex, st, ty, name, idx):
 
 
 STUB_TYPES['gridlist'] = _gridlist_fresh
+
+
+def _dict_fresh(ex, st, ty, name, idx):
+    ksort = z3.StringSort() if ty.args[0].kind == 'str' else z3.IntSort()
+    return new_symdict(ex, st, name, ty.args[1], ksort, idx)
+
+
+STUB_TYPES['dict'] = _dict_fresh
 
 
 def _gl(st, v):
